@@ -91,6 +91,8 @@ impl PriceChannelStrategy {
 		r is Ok ==> r->Ok_0.inv() && r->Ok_0.cfg == self,
 		r is Ok ==> r->Ok_0.highest.window.view() =~= konst(self.period as nat, candle.high_s())
 			&& r->Ok_0.lowest.window.view() =~= konst(self.period as nat, candle.low_s()),
+		// C08: the constant state for the candle's high and low (pcs_const_step)
+		r is Ok ==> r->Ok_0.const_state(candle.high_s()@, candle.low_s()@),
 //@replace Ok(Self::Instance { ==> Ok(PriceChannelStrategyInstance {
 //@end
 }
@@ -129,6 +131,19 @@ impl PriceChannelStrategyInstance {
 //@end
 }
 
+// ---- C08 at indicator level: PriceChannelStrategy on a repeated candle: the channel is built from that candle's high and low at every step
+impl PriceChannelStrategyInstance {
+	pub open spec fn const_state(&self, h: real, l: real) -> bool { self.inv() && all_eq(self.highest.window.view(), h) && all_eq(self.lowest.window.view(), l) }
+}
+pub proof fn pcs_const_step(pre: &PriceChannelStrategyInstance, h: ValueType, l: ValueType, post: &PriceChannelStrategyInstance, up: real, lo: real, hi: ValueType, lw: ValueType)
+	requires pre.const_state(h@, l@), post.inv(), post.cfg == pre.cfg, pcs_step(pre, h, l, post, up, lo, hi, lw)
+	ensures hi@ == h@, lw@ == l@, up == (h@ + l@) / 2real + pre.cfg.sigma@ * (h@ - (h@ + l@) / 2real), post.const_state(h@, l@)
+{
+	let (a, b) = (post.highest.window.view(), post.lowest.window.view());
+	assert forall|i: int| 0 <= i < a.len() implies (#[trigger] a[i])@ == h@ by { if i < a.len() - 1 { assert(a[i] == pre.highest.window.view()[i + 1]); } }
+	assert forall|i: int| 0 <= i < b.len() implies (#[trigger] b[i])@ == l@ by { if i < b.len() - 1 { assert(b[i] == pre.lowest.window.view()[i + 1]); } }
+}
+
 // ================================================================== BollingerBands
 //@extract src/indicators/bollinger_bands.rs struct:BollingerBands keepderive
 //@end
@@ -149,6 +164,8 @@ impl BollingerBands {
 		r is Ok ==> r->Ok_0.inv() && r->Ok_0.cfg == self,
 		r is Ok ==> (exists|src: ValueType| src@ == src_val(candle, self.source)
 			&& #[trigger] konst(self.avg_size as nat, src) =~= r->Ok_0.ma.window.view() && r->Ok_0.st_dev.window.view() =~= konst(self.avg_size as nat, src)),
+		// C08: the constant state for the candle's source price (bb_const_step)
+		r is Ok ==> r->Ok_0.const_state(src_val(candle, self.source)),
 //@replace Ok(Self::Instance { ==> Ok(BollingerBandsInstance {
 //@end
 }
@@ -179,6 +196,52 @@ impl BollingerBandsInstance {
 		assert(bb_step(old(self), source, self, r.vals()[0]@, r.vals()[1], r.vals()[2]@, sq_error));
 	}
 //@end
+}
+
+// ---- C08 at indicator level: BollingerBands on a repeated candle: middle = the source price, deviation 0, both bands on the middle, signal "none" (zero-width band)
+pub proof fn lemma_fsum_all_val(v: Seq<R>, f: spec_fn(R) -> real, c: real)
+	requires forall|i: int| 0 <= i < v.len() ==> f(#[trigger] v[i]) == c
+	ensures fsum(v, f) == (v.len() as real) * c
+	decreases v.len()
+{
+	if v.len() > 0 {
+		assert forall|i: int| 0 <= i < v.drop_last().len() implies f(#[trigger] v.drop_last()[i]) == c by { assert(v.drop_last()[i] == v[i]); }
+		lemma_fsum_all_val(v.drop_last(), f, c);
+		assert(f(v.last()) == c) by { assert(v.last() == v[v.len() - 1]); }
+		let n = v.len() as real;
+		assert((n - 1real) * c + c == n * c) by(nonlinear_arith);
+		assert(v.drop_last().len() as real == n - 1real);
+	} else {
+		assert(0real * c == 0real) by(nonlinear_arith);
+	}
+}
+impl BollingerBandsInstance {
+	pub open spec fn const_state(&self, s: real) -> bool { self.inv() && all_eq(self.ma.window.view(), s) && all_eq(self.st_dev.window.view(), s) }
+}
+pub proof fn bb_const_step(pre: &BollingerBandsInstance, src: ValueType, post: &BollingerBandsInstance, upper: real, middle: ValueType, lower: real, sd: ValueType)
+	requires pre.const_state(src@), post.inv(), post.cfg == pre.cfg, bb_step(pre, src, post, upper, middle, lower, sd)
+	ensures middle@ == src@, sd@ == 0real, upper == src@, lower == src@, post.const_state(src@)
+{
+	let (a, b) = (post.ma.window.view(), post.st_dev.window.view());
+	assert forall|i: int| 0 <= i < a.len() implies (#[trigger] a[i])@ == src@ by { if i < a.len() - 1 { assert(a[i] == pre.ma.window.view()[i + 1]); } }
+	assert forall|i: int| 0 <= i < b.len() implies (#[trigger] b[i])@ == src@ by { if i < b.len() - 1 { assert(b[i] == pre.st_dev.window.view()[i + 1]); } }
+	let x = src@;
+	// mean
+	lemma_sum_all_eq(a, x);
+	let na = a.len() as real;
+	assert((na * x) / na == x) by(nonlinear_arith) requires na >= 1real;
+	// deviation
+	assert forall|i: int| 0 <= i < b.len() implies id_fn()(#[trigger] b[i]) == x by {}
+	assert forall|i: int| 0 <= i < b.len() implies sq_fn()(#[trigger] b[i]) == x * x by {}
+	lemma_fsum_all_val(b, id_fn(), x);
+	lemma_fsum_all_val(b, sq_fn(), x * x);
+	let nr = b.len() as real;
+	assert(nr * (x * x) - (nr * x) * (nr * x) / nr == 0real) by(nonlinear_arith) requires nr >= 2real;
+	assert(0real / (nr - 1real) == 0real) by(nonlinear_arith) requires nr >= 2real;
+	assert((b.len() - 1) as real == nr - 1real);
+	axiom_sqrt(0real);
+	assert(sd@ * sd@ == 0real ==> sd@ == 0real) by(nonlinear_arith);
+	assert(pre.cfg.sigma@ * 0real == 0real) by(nonlinear_arith);
 }
 } // verus!
 fn main() {}
